@@ -38,8 +38,11 @@ RULES = {
     "R6": "bookkeeping survives a rejected call (C06's analysis restricted to the use-def / ownership fields): in every "
     "public mutator, no write to a producer link, output index, use list, ownership flag, owning graph, node input/output "
     "tuple or node list precedes a point that can still reject - 'whether the individual calls succeed or raise'",
+    "R9": "what is done for every element is done inside the loop over them (shared rule S17): in the IR core, the graph containers, the "
+    "linked list and the convenience rewriters, no statement after a `for` loop reads the loop's variable - a detach / unregister / "
+    "unlink call one indent level out runs for the last element only and leaves the links of the others half-updated",
 }
-FLOORS = {"R1": 30, "R1b": 4, "R2": 70, "R3": 10, "R4": 4, "R5": 8, "R6": 40, "R7": 12, "R8": 1}
+FLOORS = {"R1": 30, "R1b": 4, "R2": 70, "R3": 10, "R4": 4, "R5": 8, "R6": 40, "R7": 12, "R8": 1, "R9": 40}
 EXPLANATION = (
     "Enumerates every method of collections.UserList/UserDict (parsed from the interpreter's own "
     "source) that writes self.data and checks how GraphInputs/GraphOutputs/GraphInitializers resolve "
@@ -1133,6 +1136,10 @@ def rule_r8(ctx):
 
 
 def run(ctx):
+    from ..shared import rule_s17
+
+    rule_s17(ctx, "R9", lambda f: f.module.name in ("onnx_ir._core", "onnx_ir._graph_containers", "onnx_ir._linked_list", "onnx_ir._convenience", "onnx_ir._name_authority"),
+             "the bookkeeping of the other elements is left half-updated", floor=40)
     rule_rekey(ctx)
     rule_r8(ctx)
     rule_r7(ctx)
